@@ -400,6 +400,40 @@ func ruleGlobalGenerate(c *Ctx) {
 		bo, ok := strip(st.Val).(*ssa.BinOp)
 		return ok && bo.Op == token.ADD && countP != nil && (derivesFrom(bo.X, same(countP), 3) || derivesFrom(bo.Y, same(countP), 3))
 	}, nil, "the second round asks for the collected maximum plus the requested count: the values returned lie above every local timestamp seen")
+	// a round's answer is accepted only if it did not exceed what was asked for — or the round was the second one,
+	// sent with skipCheck: at a successful return the last SyncMaxTS answer was compared with the estimate and found
+	// not larger, or skipCheck was set
+	if cell != nil {
+		var skipV ssa.Value
+		for _, ci := range callsIn(gen, false, syncMax) {
+			if a := callArgs(ci.Common()); len(a) >= 4 {
+				skipV = a[3]
+			}
+		}
+		notLarger := guardRel("answer <= estimate", "<= ==", func(v ssa.Value) bool {
+			cl, _ := callOf(v)
+			if cl == nil || !cmpTS.Match(cl.Common()) {
+				return false
+			}
+			a := callArgs(cl.Common())
+			return len(a) == 2 && sameVal(a[0], cell)
+		}, isConstInt(0))
+		notLarger.invalidate = instrCallMatcher(syncMax)
+		skipSet := &guardEv{name: "skipCheck", match: func(cond ssa.Value, pos bool) bool { return pos && skipV != nil && cond == skipV }}
+		c.need(rule, gen, "successful return (answer accepted)", func(x ssa.Instruction) bool {
+			r, ok := x.(*ssa.Return)
+			return ok && retIsNilErr(r)
+		}, []Ev{notLarger, skipSet}, anyOf, "the answer of the last round was found not larger than the estimate, or that round was the validated second one (skipCheck)")
+	}
+	// when the raised estimate's logical part would overflow, the carry follows (physical advanced, logical restarted)
+	physF := P.Field(pb, "Timestamp", "Physical")
+	c.mustFollowEdge(rule, gen, "precheckLogical refused the raised estimate", func(cond ssa.Value, pos bool) bool {
+		cl, ok := cond.(*ssa.Call)
+		return ok && !pos && precheck.Match(cl.Common())
+	}, "estimate.Physical advanced", func(x ssa.Instruction) bool {
+		st, ok := x.(*ssa.Store)
+		return ok && fieldOfAddr(st.Addr) == physF
+	}, errorExit, "an estimate whose logical part does not fit is carried into the physical part before it is sent")
 	// the non-synchronised path delegates to getTS (covered above): the only other non-error exit
 	n := len(callsIn(gen, false, getTS))
 	c.Check(n >= 1, rule, "delegation to getTS in "+fnName(gen), "without dc-locations the request is served by getTS", P.pos(gen.Pos()), "")
